@@ -38,6 +38,9 @@ func runC05(c *eng.Ctx, tier string) {
 	if k == nil {
 		return
 	}
+	// R-C05-8: a damaged file is an error, never a reason to start afresh:
+	// opening creates a database only when no file exists (C03's rule)
+	includeOnly(c, "R-C05-8", func(sc *eng.Ctx) { runC03(sc, "quick") }, "R-C03-3")
 	// R-C05-1 taint
 	scopePkgs := map[*types.Package]bool{}
 	for _, rel := range []string{"db", "server", "audit", "types/api"} {
